@@ -39,6 +39,7 @@ func Alphabet(pc ref.PConfig) []ref.Cmd {
 	add(ref.Cmd{Name: "MAIL ok", Op: "MAIL", Arg: "ok1@a.example", Steps: [][]byte{line("MAIL FROM:<ok1@a.example>")}})
 	add(ref.Cmd{Name: "MAIL rej", Op: "MAIL", Arg: "rej@a.example", Steps: [][]byte{line("MAIL FROM:<rej@a.example>")}})
 	add(ref.Cmd{Name: "MAIL rej multi-line", Op: "MAIL", Arg: "rejml@a.example", Steps: [][]byte{line("MAIL FROM:<rejml@a.example>")}})
+	add(ref.Cmd{Name: "MAIL rej without enhanced code", Op: "MAIL", Arg: "rejne@a.example", Steps: [][]byte{line("MAIL FROM:<rejne@a.example>")}})
 	add(ref.Cmd{Name: "MAIL tmp", Op: "MAIL", Arg: "tmp@a.example", Steps: [][]byte{line("MAIL FROM:<tmp@a.example>")}})
 	add(ref.Cmd{Name: "MAIL syntax", Op: "MAIL", Bad: "syntax", Steps: [][]byte{line("MAIL FROM:<nobody")}})
 	add(ref.Cmd{Name: "MAIL size over", Op: "MAIL", Arg: "ok1@a.example", Bad: "sizeover", Steps: [][]byte{line("MAIL FROM:<ok1@a.example> SIZE=99999")}})
@@ -49,6 +50,7 @@ func Alphabet(pc ref.PConfig) []ref.Cmd {
 	add(ref.Cmd{Name: "RCPT a", Op: "RCPT", Arg: "oka@b.example", Steps: [][]byte{line("RCPT TO:<oka@b.example>")}})
 	add(ref.Cmd{Name: "RCPT b", Op: "RCPT", Arg: "okb@b.example", Steps: [][]byte{line("RCPT TO:<okb@b.example>")}})
 	add(ref.Cmd{Name: "RCPT rej", Op: "RCPT", Arg: "rej@b.example", Steps: [][]byte{line("RCPT TO:<rej@b.example>")}})
+	add(ref.Cmd{Name: "RCPT rej without enhanced code", Op: "RCPT", Arg: "rejne@b.example", Steps: [][]byte{line("RCPT TO:<rejne@b.example>")}})
 	add(ref.Cmd{Name: "RCPT syntax", Op: "RCPT", Bad: "syntax", Steps: [][]byte{line("RCPT TO:<@>")}})
 
 	msg := func(first string) ([]byte, []byte) {
